@@ -218,11 +218,52 @@ def lits_of(body, block, facts):
             continue
         out.append(l)
     out = [l for l in out if not (l.kind == "flag" and l.block in explained)]
+    for l in out:
+        _normalise_lit(l)
     if body.kind == "closure":
         out += chain_entry_lits(body, facts)
     out += expand_predicates(out, facts, body)
     body._cache[key] = out
     return out
+
+
+_CMP_OPS = ("Eq", "Ne", "Lt", "Le", "Gt", "Ge")
+
+
+def _normalise_lit(l):
+    """rewrites that only restate a condition: `anyhow::ensure!(c)` tests `not(c)`; `c.then(..)` / `c.then_some(..)` is Some exactly
+    when c holds. The literal is re-expressed over c itself so that the rules see the condition the author wrote."""
+    try:
+        flip = None
+        inner = None
+        if l.kind == "call" and callee_name(l.term) == "not" and len(l.term[2]) == 1 and l.truth is not None:
+            inner, flip = l.term[2][0], True
+        elif l.kind == "variant" and l.variants in ({"Some"}, {"None"}):
+            pt = _strip_var(l.term)
+            if pt[0] == "call" and callee_name(pt) in ("then", "then_some") and len(pt[2]) == 2 and pt[4] is not None and "bool" in pt[4].path:
+                inner, flip = pt[2][0], False
+                l_truth = l.variants == {"Some"}
+        if inner is None:
+            return
+        truth = (not l.truth) if flip else l_truth
+        hops = 0
+        while hops < 20:
+            hops += 1
+            if inner[0] in ("ref", "deref", "cast"):
+                inner = inner[1]
+            elif inner[0] == "var":
+                inner = inner[3]
+            elif inner[0] == "unop" and inner[1] == "Not":
+                inner = inner[2]
+                truth = not truth
+            else:
+                break
+        if inner[0] == "call":
+            l.kind, l.term, l.truth, l.variants = "call", inner, truth, None
+        elif inner[0] == "binop" and inner[1] in _CMP_OPS:
+            l.kind, l.term, l.truth, l.variants = "cmp", inner, truth, None
+    except (IndexError, TypeError, AttributeError):
+        return
 
 
 _EXPANDING = []
